@@ -64,6 +64,11 @@ func schemeNames() []string {
 		out = append(out, next...)
 		cur = next
 	}
+	// every byte value before, after and between letters (the validity rule is per byte)
+	for b := 0; b < 256; b++ {
+		c := string([]byte{byte(b)})
+		out = append(out, "q"+c, c+"q", "q"+c+"r")
+	}
 	return out
 }
 
